@@ -22,6 +22,7 @@ void __CPROVER_assert(bool c, const char *msg) noexcept {
 }
 void vp_global_ctors() noexcept {}
 bool vp_false() noexcept { return false; }
+unsigned long vp_concretize(unsigned long v) noexcept { return v; }
 void vp_note(const char *tag, unsigned long v) noexcept { printf("NOTE %s %lu\n", tag, v); }
 void VP_ENTRY();
 }
